@@ -44,6 +44,9 @@ func exec(kind string, in []string) []string {
 	if kind == "sched" {
 		return sd.ExecSched(in)
 	}
+	if kind == "cdeliver" {
+		return sd.ExecCDeliver(in) // witness of K-C16-concurrent-stored-after-deleted, run from the corpus
+	}
 	if kind == "mdeliver" {
 		return sd.ExecMDeliver(in)
 	}
